@@ -113,7 +113,11 @@ func verify(f *os.File, opts signers.VerifyOpts) ([]*signers.Signature, error) {
 }
 
 func nevra(header *rpmutils.RpmHeader) string {
-	nevra, _ := header.GetNEVRA()
+	nevra, err := header.GetNEVRA()
+	if err != nil {
+		// a header without name, version, release or arch tag
+		return ""
+	}
 	snevra := nevra.String()
 	// strip .rpm
 	snevra = snevra[:len(snevra)-4]
